@@ -985,6 +985,31 @@ def rule_E5(ctx, prog, label, rule='E5'):
                 if c.kind == 'BinaryOperator' and c.op == '==' and _npp(c.kids[0], fs) == slot + '.size' and int_value(c.kids[1]) == 0 \
                         and any(x is n for x in ifs.kids[1].walk()):
                     under_free = True
+            if not under_free and cn is not None:
+                # the same test written as an early `continue` / `goto`: every path to the store leaves a branch on
+                # `slot.size != 0` by its false edge (or on `slot.size == 0` by its true edge)
+                for bn in g.nodes:
+                    if bn.kind != 'branch' or bn.ast is None or bn.id not in dom.get(cn.id, ()):
+                        continue
+                    c = strip(bn.ast, casts=True)
+                    if c.kind == 'BinaryOperator' and c.op in ('==', '!=') and _npp(c.kids[0], fs) == slot + '.size' and int_value(c.kids[1]) == 0:
+                        good_lab = (c.op == '==')
+                        # the store must be unreachable from the other edge without passing the branch again
+                        other = [m for (lab_, m) in bn.succs if lab_ is not good_lab]
+                        seen_ = set()
+                        stk_ = list(other)
+                        hit_ = False
+                        while stk_:
+                            x_ = stk_.pop()
+                            if x_.id in seen_ or x_ is bn:
+                                continue
+                            seen_.add(x_.id)
+                            if x_ is cn:
+                                hit_ = True
+                                break
+                            stk_ += [m for (_l, m) in x_.succs]
+                        if not hit_:
+                            under_free = True
             freed = False
             for c in f.body.find('CallExpr'):
                 if callee_name(c) == 'm4ri_mm_free' and _npp(c.kids[1], fs) == slot + '.data':
